@@ -366,7 +366,7 @@ def observe_prog(runner, hist, r, tid):
                 ev["obs"] = errrec("command-count-mismatch")
             else:
                 ev["obs"] = per_stmt[k]
-                if ev["ev"] == "Stmt" and ev["st"]["s"] in ("encrypt", "keywrap") and ev["obs"]["t"] == "load":
+                if ev["ev"] == "Stmt" and ev["st"]["s"] in ("encrypt", "keywrap") and ev["obs"]["t"] == "load" and ev["st"].get("act", True):
                     ev["obs"] = owner_of(ev["st"], ev["obs"], kbdefs)
             k += 1
         evs.append(ev)
@@ -502,8 +502,11 @@ def run(tier):
     if len(progs3) < 200:
         raise Machinery(f"key-blob GEN emitted only {len(progs3)} programs\n{g3.out[-1500:]}")
     if tier == "quick":
+        # seeded subset; the programs that encrypt through a context which does NOT decrypt (ADE / VLD clear) are always in it
         r.shuffle(progs3)
-        progs3 = progs3[:400]
+        inact = [h for h in progs3 if any(e["ev"] == "Stmt" and e["st"]["s"] == "encrypt" and not e["st"]["act"] for e in h)]
+        rest = [h for h in progs3 if h not in inact[:200]]
+        progs3 = inact[:200] + rest[:400]
     if tier == "quick":
         # seeded subset, stratified: every refused construct and at least 40 programs of every statement kind are always in it
         r.shuffle(progs)
